@@ -207,7 +207,7 @@ Lemma doc_kid_facts p k :
   /\ (forall i c ks ex, k = KNode i c ks ex -> forall x, In x ks -> In (i, x) (doc_kids d)).
 Proof.
   intros Hin. unfold doc_kids in Hin. apply in_flat_map in Hin as [k0 [Hk0 Hin]].
-  destruct Hwf as [_ [_ [Hkids _]]]. rewrite Forall_forall in Hkids.
+  pose proof Hwf as Hw_; destruct Hw_ as [_ [_ [Hkids _]]]. rewrite Forall_forall in Hkids.
   destruct (kid_all_facts oc (d_root d) k0 (Hkids k0 Hk0) p k Hin) as [H1 [H2 [H3 H4]]].
   assert (Hsub : incl (kid_defs (d_root d) k0) oc).
   { intros x Hx. unfold oc, emit_ctx. right. apply in_or_app. left. unfold kids_defs.
@@ -238,20 +238,22 @@ Proof.
   assert (Hnamed : forall i c ks ex, k = KNode i c ks ex -> A n (oref (kid_id k)) (CNamed n_nonroot) = true).
   { intros i c ks ex Hk. destruct n as [|n]; [reflexivity|].
     rewrite A_S. rewrite (A1_named opq oc tc _ _ n_nonroot spec_nonroot_rep) by reflexivity.
-    rewrite <- A_S. unfold oref. cbn [rep_chk spec_nonroot_rep r_ty r_pred r_ind fst snd].
+    rewrite <- A_S. unfold oref.
+    change (rep_chk spec_nonroot_rep) with (CRep (TDict nonroot_ents None) None IAllowed).
     rewrite A_ref_plain by reflexivity. fold (oref (kid_id k)). rewrite Hval.
     replace (CRep (TDict nonroot_ents None) None IAllowed) with (chk_of k) by (subst k; reflexivity).
     apply IH. lia. }
-  unfold kid_of_nonroot, kid_of_root. rewrite !A_S, !A1_disj. rewrite Hr. simpl andb.
-  split; apply existsb_exists.
-  - destruct k as [i a|i a|i c ks ex].
-    + exists spec_page. split; [simpl; auto|]. apply (Halt (TDict page_ents None)); reflexivity.
-    + exists spec_template. split; [simpl; auto|]. apply (Halt (TDict template_ents None)); reflexivity.
-    + exists (CNamed n_nonroot). split; [simpl; auto|]. eapply Hnamed; reflexivity.
-  - destruct k as [i a|i a|i c ks ex].
-    + exists spec_page. split; [simpl; auto|]. apply (Halt (TDict page_ents None)); reflexivity.
-    + exists spec_template. split; [simpl; auto|]. apply (Halt (TDict template_ents None)); reflexivity.
-    + exists spec_nonroot. split; [simpl; auto|]. apply (Halt (TDict nonroot_ents None)); reflexivity.
+  unfold kid_of_nonroot, kid_of_root. rewrite !A_S, !A1_disj. rewrite Hr. cbn [existsb andb].
+  assert (Hp : forall i a, k = KPage i a -> A n (oref (kid_id k)) spec_page = true).
+  { intros i a ->. apply (Halt (TDict page_ents None)); reflexivity. }
+  assert (Ht : forall i a, k = KTemplate i a -> A n (oref (kid_id k)) spec_template = true).
+  { intros i a ->. apply (Halt (TDict template_ents None)); reflexivity. }
+  assert (Hn : forall i c ks ex, k = KNode i c ks ex -> A n (oref (kid_id k)) spec_nonroot = true).
+  { intros i c ks ex ->. apply (Halt (TDict nonroot_ents None)); reflexivity. }
+  destruct k as [i a|i a|i c ks ex].
+  - rewrite (Hp i a eq_refl). split; rewrite ?orb_true_r; reflexivity.
+  - rewrite (Ht i a eq_refl). split; rewrite ?orb_true_r; reflexivity.
+  - rewrite (Hnamed i c ks ex eq_refl), (Hn i c ks ex eq_refl). split; rewrite ?orb_true_r; reflexivity.
 Qed.
 
 (* an array of references to kids *)
@@ -269,7 +271,7 @@ Proof.
   - destruct root; auto.
 Qed.
 
-Lemma node_dict_get_extra parent c ks ex k :
+Lemma node_dict_get_extra parent (c : Z) ex k :
   node_extra_ok ex -> ~ In k [k_Type; k_Count; k_Kids; k_Parent] \/ (parent = None /\ k = k_Parent) ->
   forall rest, dict_get ((k_Type, OName (B "Pages")) :: (k_Count, OInt c) :: (k_Kids, rest)
                          :: match parent with Some p => [(k_Parent, oref p)] | None => [] end ++ ex) k
@@ -289,7 +291,7 @@ Lemma node_accept n (parent : option oid) c ks ex i :
     (match parent with Some _ => spec_nonroot | None => spec_root_node end) = true.
 Proof.
   intros Hex Hks IH. destruct n as [|n]; [reflexivity|].
-  assert (Hkids : forall root, A n (OArr (List.map (fun k => oref (kid_id k)) ks))
+  assert (Hkids : forall root : bool, A n (OArr (List.map (fun k => oref (kid_id k)) ks))
                                  (c_plain (TArr (if root then kid_of_root else kid_of_nonroot) None)) = true).
   { intros root. apply (kids_array_accept n i); auto. }
   unfold node_obj. destruct parent as [p|].
@@ -308,7 +310,7 @@ Proof.
     + apply name_is_ok.
     + change (A n (OInt c) (chk_of_kind VInt) = true). apply kind_sound; [reflexivity|discriminate].
     + apply (Hkids true).
-    + rewrite (node_dict_get_extra None c ks ex k_Parent Hex); [|right; auto].
+    + rewrite (node_dict_get_extra None c ex k_Parent Hex); [|right; auto].
       rewrite dict_get_none; auto. destruct Hex as [_ Hex]. intros Hin. apply (Hex _ Hin). simpl. auto.
 Qed.
 
@@ -328,7 +330,7 @@ Qed.
 Lemma root_accept n : A n (root_obj d) spec_root_node = true.
 Proof.
   unfold root_obj. apply (node_accept n None (d_count d) (d_kids d) (d_root_extra d) (d_root d)).
-  - destruct Hwf as [_ [H _]]. exact H.
+  - pose proof Hwf as Hw_; destruct Hw_ as [_ [H _]]. exact H.
   - intros x Hx. unfold doc_kids. apply in_flat_map. exists x. split; auto.
     destruct x; [simpl; auto | simpl; auto | rewrite kid_all_node; left; reflexivity].
   - intros m _ p k. apply kids_accept.
@@ -338,7 +340,7 @@ Lemma catalog_accept n : A n (emit_root d) spec_catalog = true.
 Proof.
   destruct n as [|n]; [reflexivity|]. unfold spec_catalog, c_plain, emit_root.
   rewrite A_dict_plain.
-  destruct Hwf as [_ [_ [_ Hcat]]].
+  pose proof Hwf as Hw_; destruct Hw_ as [_ [_ [_ Hcat]]].
   assert (Hincl : incl (attrs_defs (d_cat d)) oc).
   { intros x Hx. unfold oc, emit_ctx. right. apply in_or_app. right. exact Hx. }
   destruct tables_fine as [_ [_ Hf]]. destruct tables_nodup as [_ [_ Hn]].
